@@ -158,3 +158,30 @@ def run(res, ctx):
         "input_distribution": dict(sorted(st.items())),
         "traces_validated_against_impl": 2 * st["evaluations"],
     })
+
+
+def replay(res, ctx, path):
+    def pair(runs):
+        if "input_original" not in runs or "input_with_split" not in runs:
+            return []
+        ia, ib = runs["input_original"]["impl"], runs["input_with_split"]["impl"]
+        if ia["status"] != "ok" or ia["secs"][0]["stop"][0] != 0:
+            return []
+        if ib["status"] != "ok":
+            return ["history accepted, but the input is refused after inserting the split row(s)"]
+        sa, sb = ia["secs"][0], ib["secs"][0]
+        if sb["stop"][0] != 0:
+            return ["history accepted, but rejected after inserting a value-neutral split: %s" % sb.get("msg")]
+        rows_a = [d for d in sa["deltas"] if d["act"] != "Split"]
+        rows_b = [d for d in sb["deltas"] if d["act"] != "Split"]
+        if len(rows_a) != len(rows_b):
+            return ["row count differs after inserting a value-neutral split (%d vs %d)" % (len(rows_a), len(rows_b))]
+        for j, (d, e) in enumerate(zip(rows_a, rows_b)):
+            if d["act"] != e["act"] or d["afid"] != e["afid"]:
+                return ["row %d kind" % j]
+            if not core.close(d["gain"], e["gain"], TOL):
+                return ["row %d capital gain %s vs %s" % (j, d["gain"], e["gain"])]
+            if not core.close(d["post"][2], e["post"][2], TOL):
+                return ["row %d total cost base %s vs %s" % (j, d["post"][2], e["post"][2])]
+        return []
+    return corecheck.replay(res, ctx, path, pair_judge=pair)
